@@ -1,7 +1,6 @@
 package floatingip
 
 import (
-	"encoding/json"
 	"net"
 
 	"tkestack.io/galaxy/pkg/utils/nets"
@@ -154,46 +153,10 @@ func VerifC20_q_insertRemoveIP() {
 	verifAssert("C20/repinv-preserved", verifRepInv(gw, mask, f2, l2), "InsertIP/RemoveIP broke the representation invariant (inside subnet, sorted, disjoint, not mergeable)")
 }
 
-// BOUND: finite family: every pool of the 4 harness topologies plus two edge pools (a range ending at 255.255.255.255, a single address in a /30), optionally after one InsertIP / RemoveIP of an address next to a range end; the pool is encoded with the real MarshalJSON and decoded with the real UnmarshalJSON (which validates with fipCheck): the decoder accepts what the encoder wrote and yields the same ranges, gateway, mask, VLAN and node subnets
-// ASSUME: C20: the JSON text codec under the engine is the engine's tag-aware tree codec (real text for concrete values); native replays use encoding/json
-func VerifC20_q_jsonRoundTrip() {
-	var pools []*FloatingIPPool
-	for t := 0; t < VNumTopologies; t++ {
-		ps, _, _ := VTopology(t)
-		pools = append(pools, ps...)
+// BOUND: the pools of the 4 harness topologies are valid configurations (they are what the other harnesses start from)
+func VerifC20_q_topologiesValid() {
+	ps, _, _ := VTopology(nondetChoice(VNumTopologies))
+	for _, p := range ps {
+		verifAssert("C20/topology-valid", fipCheck(p) == nil, "fipCheck rejects a pool of the harness topologies")
 	}
-	pools = append(pools, vPool([]string{"10.0.1.0/24"}, "255.255.255.1", "255.255.255.0/24", 5, "255.255.255.10~255.255.255.12", "255.255.255.254~255.255.255.255"),
-		vPool([]string{"10.0.1.0/24", "10.0.2.0/24"}, "10.9.0.1", "10.9.0.0/30", 0, "10.9.0.2"))
-	p := pools[nondetChoice(len(pools))]
-	switch nondetChoice(3) {
-	case 1: // grow a range by the address right after its end (may close a gap and merge)
-		r := p.IPRanges[nondetChoice(len(p.IPRanges))]
-		p.InsertIP(nets.IntToIP(nets.IPToInt(r.Last) + 1))
-	case 2: // shrink / split
-		r := p.IPRanges[nondetChoice(len(p.IPRanges))]
-		p.RemoveIP(nets.IntToIP(nets.IPToInt(r.First) + uint32(nondetChoice(2))))
-	}
-	if len(p.IPRanges) == 0 {
-		return
-	}
-	data, err := json.Marshal(p)
-	verifAssert("C20/json-encodes", err == nil, "MarshalJSON failed for a valid pool")
-	if err != nil {
-		return
-	}
-	var q FloatingIPPool
-	err = json.Unmarshal(data, &q)
-	verifReach("decoded")
-	verifAssert("C20/json-decoder-accepts-encoder", err == nil, "UnmarshalJSON rejects what MarshalJSON wrote for a valid pool: "+string(data))
-	if err != nil {
-		return
-	}
-	same := len(q.IPRanges) == len(p.IPRanges) && q.Gateway.Equal(p.Gateway) && q.Mask.String() == p.Mask.String() && q.Vlan == p.Vlan && len(q.NodeSubnets) == len(p.NodeSubnets)
-	for i := 0; same && i < len(p.IPRanges); i++ {
-		same = q.IPRanges[i].First.Equal(p.IPRanges[i].First) && q.IPRanges[i].Last.Equal(p.IPRanges[i].Last)
-	}
-	for i := 0; same && i < len(p.NodeSubnets); i++ {
-		same = q.NodeSubnets[i].String() == p.NodeSubnets[i].String()
-	}
-	verifAssert("C20/json-round-trip", same, "decoding the encoded pool yields another pool: "+string(data))
 }
